@@ -9,8 +9,10 @@ SUB-REGION, in genomic order.  What crosses the boundaries between constructors:
 * since fix `reported_novel_chains`: the class-level set of (strand, intron chain) of the novel spliced models already
   reported on this chromosome (`drop_novel_chains_reported_elsewhere`, called by `process()` after `filter_transcripts`).
 
-`processRegion true` is `GraphBasedModelConstructor.process` of the repaired code, `processRegion false` the code before the
-fix (kept as `…Orig` for the witness).  The per-constructor steps are the existing models composed: `constructFL`,
+`processRegion .keepReads` is `GraphBasedModelConstructor.process` of the current code (round `c04rep`: the local copy of a chain
+reported by an earlier constructor takes the id of the model reported first, so its reads stay listed and counted, and leaves the
+storage after `forward_counts`), `processRegion .dropOnly` the code of fix b2b4dd9 (the copy was deleted, its reads became `*`),
+`processRegion .none` the code before both (kept as `…Orig` / `…B2b4` for the witnesses).  The per-constructor steps are the existing models composed: `constructFL`,
 `monoLoop`, `Store.preFilter`, `Store.assignReads`, `Store.filterTranscriptsG`.  Parameters (universally quantified in the
 theorems): everything the per-constructor models already take as parameters, the models `construct_assignment_based_isoforms`
 adds (`AOp`), and the gene ids `TranscriptToGeneJoiner` writes (`newGene`; the joiner only rewrites gene ids:
@@ -52,14 +54,81 @@ def Store.dropReported (s : Store) (reported : List ChainKey) : Option (Store ×
   | none => none
   | some (s', kept) => some ({ s' with models := kept }, keyUnion reported (reportKeys kept))
 
+/-! ### round `c04rep`: `reported_novel_chains` is a dict chain → id of the model reported first -/
+
+/-- `GraphBasedModelConstructor.reported_novel_chains` (dict in insertion order) -/
+abbrev ChainMap := List (ChainKey × String)
+
+/-- cached, as `instDecidableEqChainKeys` -/
+instance instDecidableEqChainMap : DecidableEq ChainMap := inferInstance
+
+def chainKeys (m : ChainMap) : List ChainKey := m.map (·.1)
+
+/-- `transcript_read_ids[new] = transcript_read_ids.pop(old)`; `internal_counter[new] = internal_counter.pop(old)`;
+    `none` = KeyError of `pop` -/
+def Store.renameTid (s : Store) (old new : String) : Option Store :=
+  if amHas s.readIds old && amHas s.counter old then
+    some { s with readIds := amSet (amErase s.readIds old) new (readsOf s old),
+                  counter := amSet (amErase s.counter old) new (cnt s.counter old) }
+  else none
+
+/-- the loop of the current `drop_novel_chains_reported_elsewhere`.  `seen` = `repeated_chains`; `kept` = the new storage in order,
+    `true` marks a member of `repeated_chain_models` (the local copy, renamed to the id of the model reported first) -/
+def dropLoopR (reported : ChainMap) :
+    List TModel → Store → List ChainKey → List (Bool × TModel) → Option (Store × List (Bool × TModel))
+  | [], s, _, kept => some (s, kept)
+  | m :: t, s, seen, kept =>
+    if isSplicedNovel m then
+      match amGet? reported (chainKey m) with
+      | none => dropLoopR reported t s seen (kept ++ [(false, m)])
+      | some first =>
+        if chainKey m ∈ seen then
+          match s.deleteFromStorage m.tid with
+          | none => none
+          | some s' => dropLoopR reported t s' seen kept
+        else
+          match s.renameTid m.tid first with
+          | none => none
+          | some s' => dropLoopR reported t s' (seen ++ [chainKey m]) (kept ++ [(true, { m with tid := first })])
+    else dropLoopR reported t s seen (kept ++ [(false, m)])
+
+/-- `own_chains.setdefault(chain, id)` -/
+def mapInsertNew (l : ChainMap) (p : ChainKey × String) : ChainMap := if amHas l p.1 then l else l ++ [p]
+
+/-- (chain, id) of the spliced novel models of a list -/
+def reportPairs (ms : List TModel) : ChainMap := (ms.filter isSplicedNovel).map (fun m => (chainKey m, m.tid))
+
+/-- `reported_novel_chains.update(own_chains)` with `own_chains` built by `setdefault` over the models that stay -/
+def mapUpdate (reported : ChainMap) (ms : List TModel) : ChainMap :=
+  ((reportPairs ms).foldl mapInsertNew []).foldl (fun l p => amSet l p.1 p.2) reported
+
+/-- the models that are dumped: the storage without the members of `repeated_chain_models` -/
+def finalModels (kept : List (Bool × TModel)) : List TModel := (kept.filter (fun p => !p.1)).map (·.2)
+
+/-- the current `drop_novel_chains_reported_elsewhere`: the storage the second `assign_reads_to_models` works on (local copies
+    included, under the first model's id), the models that will be dumped, the new `reported_novel_chains`;
+    `none` = KeyError -/
+def Store.dropKeep (s : Store) (reported : ChainMap) : Option (Store × List TModel × ChainMap) :=
+  match dropLoopR reported s.models s [] [] with
+  | none => none
+  | some (s', kept) =>
+    some ({ s' with models := kept.map (·.2) }, finalModels kept, mapUpdate reported (finalModels kept))
+
+/-- which `process()` is modelled -/
+inductive Repair where
+  | none        -- before fix b2b4dd9: every constructor reports its chains
+  | dropOnly    -- fix b2b4dd9: a repeated chain is deleted, its reads are not kept
+  | keepReads   -- current code: the reads of a repeated chain stay under the id of the model reported first
+  deriving Repr, DecidableEq
+
 /-- what the constructors of one chromosome task share -/
 structure ChrState where
   detected : List String        -- GraphBasedModelConstructor.detected_known_isoforms
   idv : Nat                     -- transcript_id_distributor.value
-  reported : List ChainKey      -- GraphBasedModelConstructor.reported_novel_chains
+  reported : ChainMap           -- GraphBasedModelConstructor.reported_novel_chains
   deriving Repr, DecidableEq
 
-/-- the state `construct_models_in_parallel` starts a chromosome with: both class-level sets cleared, a fresh distributor -/
+/-- the state `construct_models_in_parallel` starts a chromosome with: both class-level containers cleared, a fresh distributor -/
 def ChrState.init : ChrState := ⟨[], 0, []⟩
 
 /-- `construct_assignment_based_isoforms` as far as it touches the storage and the shared state: reference isoforms that pass
@@ -100,13 +169,24 @@ structure RegionIn where
   ins2 : List AssignIn                              -- second assign_reads_to_models
   newGene : TModel → String                         -- TranscriptToGeneJoiner.join_transcripts
 
-/-- the tail of `process()` after `filter_transcripts`: [the drop,] the second `assign_reads_to_models`, the joiner -/
-def regionTail (repaired : Bool) (reported : List ChainKey) (r : RegionIn) (s5 : Store) : Option (Store × List ChainKey) :=
-  match (if repaired then s5.dropReported reported else some (s5, reported)) with
-  | none => none
-  | some (s6, rep) =>
-    let s7 := s6.assignReads r.ins2
-    some ({ s7 with models := s7.models.map (fun m => { m with gene := r.newGene m }) }, rep)
+/-- the tail of `process()` after `filter_transcripts`: [the drop,] the second `assign_reads_to_models`, [`forward_counts` reads
+    `transcript_read_ids` — what `dumpR2T` prints —, the local copies leave the storage,] the joiner -/
+def regionTail (v : Repair) (reported : ChainMap) (r : RegionIn) (s5 : Store) : Option (Store × ChainMap) :=
+  let join (s7 : Store) (ms : List TModel) : Store := { s7 with models := ms.map (fun m => { m with gene := r.newGene m }) }
+  match v with
+  | .none =>
+    let s7 := s5.assignReads r.ins2
+    some (join s7 s7.models, reported)
+  | .dropOnly =>
+    match s5.dropReported (chainKeys reported) with
+    | none => none
+    | some (s6, _) =>
+      let s7 := s6.assignReads r.ins2
+      some (join s7 s7.models, mapUpdate reported s6.models)
+  | .keepReads =>
+    match s5.dropKeep reported with
+    | none => none
+    | some (s6, final, rep) => some (join (s6.assignReads r.ins2) final, rep)
 
 /-- the storage after `filter_transcripts` and the shared state after the construction steps -/
 def regionHead (next : Nat → Nat) (cs : ChrState) (r : RegionIn) : Option (FLState × Store) :=
@@ -123,10 +203,10 @@ def regionHead (next : Nat → Nat) (cs : ChrState) (r : RegionIn) : Option (FLS
         | none => none
         | some s5 => some (st2, s5)
 
-/-- `GraphBasedModelConstructor.process` for one record; `repaired = false` is the code before the fix.
+/-- `GraphBasedModelConstructor.process` for one record (see `Repair`).
     Result: the shared state handed to the next constructor and the storage that is dumped
     (`transcript_models.gtf`, `transcript_model_reads`); `none` = the code raises. -/
-def processRegion (repaired : Bool) (next : Nat → Nat) (cs : ChrState) (r : RegionIn) : Option (ChrState × Store) :=
+def processRegion (repaired : Repair) (next : Nat → Nat) (cs : ChrState) (r : RegionIn) : Option (ChrState × Store) :=
   match regionHead next cs r with
   | none => none
   | some (st2, s5) =>
@@ -135,7 +215,7 @@ def processRegion (repaired : Bool) (next : Nat → Nat) (cs : ChrState) (r : Re
     | some (s, rep) => some (⟨st2.detected, st2.idv, rep⟩, s)
 
 /-- the loop of `construct_models_in_parallel` over the records of the chromosome -/
-def runChromosome (repaired : Bool) (next : Nat → Nat) :
+def runChromosome (repaired : Repair) (next : Nat → Nat) :
     List RegionIn → ChrState → List Store → Option (ChrState × List Store)
   | [], cs, acc => some (cs, acc)
   | r :: t, cs, acc =>
@@ -144,9 +224,11 @@ def runChromosome (repaired : Bool) (next : Nat → Nat) :
     | some (cs', s) => runChromosome repaired next t cs' (acc ++ [s])
 
 /-- the current code -/
-def runChromosomeFixed := runChromosome true
-/-- the code before the fix (kept for the witness) -/
-def runChromosomeOrig := runChromosome false
+def runChromosomeFixed := runChromosome .keepReads
+/-- the code of fix b2b4dd9 (kept for the witness: the reads of a repeated chain are lost) -/
+def runChromosomeB2b4 := runChromosome .dropOnly
+/-- the code before both fixes (kept for the witness: duplicates) -/
+def runChromosomeOrig := runChromosome .none
 
 /-- (strand, intron chain) of every novel spliced model reported on the chromosome, constructor by constructor -/
 def chrKeys (reps : List Store) : List ChainKey := reps.flatMap (fun s => reportKeys s.models)
